@@ -147,8 +147,13 @@ func newEnv() (*env, error) {
 // input families
 
 type family struct {
-	Name   string
-	Kind   string // fragment_bomb | union_nest | linear
+	Name string
+	Kind string // fragment_bomb | fragment_bomb_tree | union_nest | linear
+	//  fragment_bomb: the same fragment is reached several times for one
+	//    object (spread twice at a level, merged under one alias, through
+	//    inline fragments): visiting it once is enough.
+	//  fragment_bomb_tree: the fragment is spread under differently aliased
+	//    fields, so a normal form without sharing is a tree of 2^n nodes.
 	Params []int
 	Gen    func(n int) string
 }
@@ -180,7 +185,7 @@ func fixedFamilies() []family {
 		{Name: "frag_same_level_fan3", Kind: "fragment_bomb", Params: rangeInts(4, 60, 2), Gen: func(n int) string {
 			return fragChain(n, "{ ...F0 }", func(i int) string { return "Query { " + spread(i+1, 3) + " }" }, "Query { kind }")
 		}},
-		{Name: "frag_nested_alias_fan2", Kind: "fragment_bomb", Params: rangeInts(4, 60, 2), Gen: func(n int) string {
+		{Name: "frag_nested_alias_fan2", Kind: "fragment_bomb_tree", Params: rangeInts(4, 60, 2), Gen: func(n int) string {
 			return fragChain(n, "{ node { ...F0 } }", func(i int) string {
 				return fmt.Sprintf("Node { a: next { ...F%d } b: next { ...F%d } }", i+1, i+1)
 			}, "Node { id }")
@@ -245,7 +250,11 @@ func randomBomb(r *rand.Rand, idx int) family {
 	shuffle := r.Intn(2) == 0
 	seed := r.Int63()
 	name := fmt.Sprintf("frag_random_%d_fan%d_style%d_node%v", idx, fan, style, onNode)
-	return family{Name: name, Kind: "fragment_bomb", Params: rangeInts(4, 40, 2), Gen: func(n int) string {
+	kind := "fragment_bomb"
+	if style == 1 && onNode {
+		kind = "fragment_bomb_tree"
+	}
+	return family{Name: name, Kind: kind, Params: rangeInts(4, 40, 2), Gen: func(n int) string {
 		typ, root, leaf := "Query", "{ ...F0 }", "Query { kind }"
 		if onNode {
 			typ, root, leaf = "Node", "{ node { ...F0 } }", "Node { id }"
@@ -445,13 +454,16 @@ func (e *env) climb(f family, stage string) ladderResult {
 // classify names the pinned super-polynomial stages; anything else is
 // unclassified.
 func classify(r ladderResult) string {
+	bomb := r.Kind == "fragment_bomb" || r.Kind == "fragment_bomb_tree"
 	switch {
-	case r.Kind == "fragment_bomb" && r.Stage == "PrepareQuery":
+	case bomb && r.Stage == "PrepareQuery":
 		return "prepare-fragment-exponential"
-	case r.Kind == "fragment_bomb" && r.Stage == "Parse":
+	case bomb && r.Stage == "Parse":
 		return "parse-conflicts-fragment-exponential"
 	case r.Kind == "fragment_bomb" && r.Stage == "GatewayPlan":
-		return "gateway-flatten-fragment-exponential"
+		return "gateway-flatten-fragment-respread-exponential"
+	case r.Kind == "fragment_bomb_tree" && r.Stage == "GatewayPlan":
+		return "gateway-flatten-tree-expansion-exponential"
 	case r.Kind == "union_nest" && r.Stage == "GatewayPlan":
 		return "gateway-flatten-union-exponential"
 	}
